@@ -16,6 +16,7 @@ THOROUGH_DEPTH = 6      # thorough tier = this many times the base thorough budg
 TIME_CAP = {"quick": 200, "thorough": 2400}
 KINDS = ["random", "consistent", "moving", "level", "inverted", "vertical", "pure-pitch", "pure-roll", "sparse", "integer", "near-special"]
 REGIONS = {"hist:" + k: 12 for k in KINDS}
+REGIONS["hist:long-fast"] = 3       # long recordings of a fast-turning sensor (recursive estimators only)
 TOL_UNIT = 1e-9
 
 # name -> (needs, builder(F, g, a, m, P) -> result array, representation)
@@ -296,6 +297,23 @@ def generate(rng, tier, shard, nshards):
             m1 = np.array([-(c * np.cos(d)) - s_ * np.sin(d), 0.0, -s_ * -np.cos(d) + c * np.sin(d)]) * 45.0
             g = rng.standard_normal((6, 3)) * 0.05
             yield Case("all", "hist:pure-pitch", g=g, a=np.tile(a1, (6, 1)), m=np.tile(m1, (6, 1)), P={}, default=True, seed=1)
+    # long recordings of a fast-turning sensor: |rate| x sampling step between 0.3 and 6 rad per sample, hundreds to thousands of samples,
+    # field samples consistent with the motion (what a filter's carried state - covariance, bias, gains - does over a long, badly conditioned run)
+    for i in range(1 if tier == "quick" else gens.reps(2, tier)):
+        N = int(rng.integers(500, 1300)) if tier == "quick" else int(rng.integers(500, 4000))
+        x = gens.logu(rng, 0.3, 6.0) if i % 2 else gens.logu(rng, 1.5, 6.0)
+        w = gens.axis(rng) * x / 0.01
+        g = np.tile(w, (N, 1)) * (1.0 + 0.05 * rng.standard_normal((N, 1)))
+        dip = np.radians(rng.uniform(-70, 70))
+        mref = np.array([np.cos(dip), 0.0, np.sin(dip)])
+        q = gens.unit(rng)
+        a, m = [], []
+        for t in range(N):
+            Rt = rq.refR(q).T
+            a.append(Rt @ np.array([0, 0, 9.81]))
+            m.append(Rt @ mref * 50.0)
+            q = rq.qnormalize(rq.qmul(q, rq.qexp_pure(g[t] * 0.005)))
+        yield Case("all", "hist:long-fast", g=g, a=np.array(a), m=np.array(m), P={}, default=True, seed=int(rng.integers(2**31)))
     n = gens.budget(144, tier, nshards, mult=10)
     for i in range(n):
         kind = KINDS[i % len(KINDS)]
@@ -398,7 +416,10 @@ def check(case, ctx):
     # region label of a violation = history kind (+ parameter class), so that known findings can be keyed by pose kind
     region = case.region + ("" if case.p["default"] else "/random-params")
     ctx.note("params:" + ("default" if case.p["default"] else "random"))
+    long_run = case.region == "hist:long-fast"
     for name, (needs, fn, rep) in SPECS.items():
+        if long_run and "g" not in needs:
+            continue
         _step_log["first_bad"] = None
         np.random.seed(int(case.p["seed"]))
         out = call(fn, F, g.copy(), a.copy(), m.copy(), {k: (dict(v) if isinstance(v, dict) else v) for k, v in P.items()})
@@ -429,7 +450,18 @@ def check(case, ctx):
                 ctx.ok("whole-number samples give the same attitudes whether typed as float, int64 or lists", same,
                        {"form": lab, "max_diff": float(np.nanmax(np.abs(np.asarray(alt, float) - np.asarray(base, float)))) if alt.shape == base.shape and alt.dtype != object else None},
                        route=name, region="form:integer-typed samples")
-        if len(ctx.viols) > nv:
+        if len(ctx.viols) > nv and long_run:
+            bad = None
+            if out.ok:
+                o_ = np.asarray(out.value)
+                if o_.dtype != object and o_.ndim >= 2:
+                    rows = np.where(~np.all(np.isfinite(o_.astype(float).reshape(len(o_), -1)), axis=1))[0]
+                    bad = int(rows[0]) if len(rows) else None
+            for v in ctx.viols[nv:]:
+                v.region = "pose:generic"          # (the field samples of these histories are in general position)
+                if isinstance(v.detail, dict):
+                    v.detail.update(first_non_finite_sample=bad, samples=n, rate_times_step=float(np.linalg.norm(g[0]) * 0.01), history=region)
+        elif len(ctx.viols) > nv:
             # mechanism label: the exact coincidences (zero components) of the first sample the estimator fails on
             k = first_failing_sample(fn, F, g, a, m, P, n)
             lab = pose_class(a[k], m[k], needs) if k is not None else "pose:unknown"
